@@ -23,6 +23,7 @@ import (
 	"fmt"
 	"math/rand"
 	"os"
+	"runtime"
 	"sort"
 	"strconv"
 	"strings"
@@ -30,14 +31,23 @@ import (
 	"time"
 
 	"github.com/pingcap/failpoint"
+	"github.com/pingcap/kvproto/pkg/keyspacepb"
+	"github.com/pingcap/kvproto/pkg/kvrpcpb"
 	"github.com/pingcap/kvproto/pkg/metapb"
 	"github.com/pingcap/log"
+	"github.com/tikv/client-go/v2/internal/apicodec"
 	"github.com/tikv/client-go/v2/internal/client"
+	"github.com/tikv/client-go/v2/internal/locate"
 	"github.com/tikv/client-go/v2/internal/mockstore/mocktikv"
 	"github.com/tikv/client-go/v2/rawkv"
 	"github.com/tikv/client-go/v2/tikvrpc"
 	"github.com/tikv/client-go/v2/util"
 	"github.com/tikv/client-go/v2/util/async"
+	"github.com/tikv/client-go/v2/util/codec"
+	pd "github.com/tikv/pd/client"
+	pdgc "github.com/tikv/pd/client/clients/gc"
+	"github.com/tikv/pd/client/constants"
+	"github.com/tikv/pd/client/pkg/caller"
 	"go.uber.org/zap"
 	"go.uber.org/zap/zapcore"
 )
@@ -45,7 +55,7 @@ import (
 // ---------------------------------------------------------------- spec
 
 type Topo struct {
-	Kind string `json:"k"`   // split | merge | leader
+	Kind string `json:"k"`   // split | merge | leader | fail (inject only: the RPC is answered with an error, not executed)
 	Key  string `json:"key"` // hex ("-" = empty): the region containing this key is the target
 }
 type Inject struct {
@@ -61,7 +71,9 @@ type Op struct {
 	E       string   `json:"e,omitempty"`
 	Limit   int      `json:"limit,omitempty"`
 	KeyOnly bool     `json:"keyonly,omitempty"`
-	Prev    *string  `json:"prev,omitempty"` // cas: nil = expect not-exist
+	Prev    *string  `json:"prev,omitempty"`  // cas: nil = expect not-exist
+	CF      string   `json:"cf,omitempty"`    // per-call SetColumnFamily option
+	Exact   bool     `json:"exact,omitempty"` // warm the region cache first: the batches sent must then be exactly the model's
 	Pre     []Topo   `json:"pre,omitempty"`
 	Inj     []Inject `json:"inj,omitempty"`
 }
@@ -71,6 +83,9 @@ type Seq struct {
 	Splits []string `json:"splits"`
 	CF     string   `json:"cf,omitempty"`    // column family of the client (default CF_DEFAULT)
 	Fresh  bool     `json:"fresh,omitempty"` // do not create the column family before the first op
+	API    string   `json:"api,omitempty"`   // "" = API v1 (raw region keys), "v2" = keyspace codec
+	KsID   uint32   `json:"ksid,omitempty"`
+	NonAt  bool     `json:"nonatomic,omitempty"` // SetAtomicForCAS(false)
 	Ops    []Op     `json:"ops"`
 }
 
@@ -78,7 +93,23 @@ func hx(b []byte) string {
 	if len(b) == 0 {
 		return "-"
 	}
+	if r := rle(b); r != "" {
+		return r
+	}
 	return hex.EncodeToString(b)
+}
+
+// long runs of one byte (the big values of the sub-batching class) are written *<n>x<hex byte>
+func rle(b []byte) string {
+	if len(b) < 32 {
+		return ""
+	}
+	for _, c := range b {
+		if c != b[0] {
+			return ""
+		}
+	}
+	return fmt.Sprintf("*%dx%02x", len(b), b[0])
 }
 
 // empty byte strings are passed as nil, as over gRPC (and as rawkv_test.go does): mocktikv's
@@ -86,6 +117,14 @@ func hx(b []byte) string {
 func unhx(s string) []byte {
 	if s == "-" || s == "" {
 		return nil
+	}
+	if s[0] == '*' {
+		var n int
+		var c byte
+		if _, err := fmt.Sscanf(s, "*%dx%02x", &n, &c); err != nil {
+			panic(err)
+		}
+		return bytes.Repeat([]byte{c}, n)
 	}
 	b, err := hex.DecodeString(s)
 	if err != nil {
@@ -116,6 +155,9 @@ func optv(b []byte) string {
 	if b == nil {
 		return "N"
 	}
+	if r := rle(b); r != "" {
+		return "V" + r
+	}
 	return "V" + hex.EncodeToString(b)
 }
 
@@ -124,6 +166,27 @@ func optv(b []byte) string {
 type world struct {
 	cluster *mocktikv.Cluster
 	stores  []uint64
+	pfx     []byte // API v2: keyspace prefix; region bounds are memcomparable(prefix + key)
+}
+
+// enc maps a user key to the form region bounds have in the cluster
+func (w *world) enc(k []byte) []byte {
+	if w.pfx == nil {
+		return k
+	}
+	return codec.EncodeBytes(nil, append(append([]byte{}, w.pfx...), k...))
+}
+
+// dec maps a region bound back to a user key ("" for the unbounded ends)
+func (w *world) dec(b []byte) []byte {
+	if w.pfx == nil || len(b) == 0 {
+		return b
+	}
+	_, d, err := codec.DecodeBytes(b, nil)
+	if err != nil || !bytes.HasPrefix(d, w.pfx) {
+		return []byte("BROKEN-bound")
+	}
+	return d[len(w.pfx):]
 }
 
 func (w *world) regionsSorted() []*metapb.Region {
@@ -150,7 +213,7 @@ func (w *world) layout() string {
 		if !bytes.Equal(ms[i-1].EndKey, m.StartKey) {
 			return "BROKEN-gap"
 		}
-		ks = append(ks, m.StartKey)
+		ks = append(ks, w.dec(m.StartKey))
 	}
 	if len(ms[len(ms)-1].EndKey) != 0 {
 		return "BROKEN-last-end"
@@ -159,7 +222,7 @@ func (w *world) layout() string {
 }
 
 func (w *world) regionOf(key []byte) *metapb.Region {
-	r, _, _, _ := w.cluster.GetRegionByKey(key)
+	r, _, _, _ := w.cluster.GetRegionByKey(w.enc(key))
 	return r
 }
 
@@ -171,17 +234,17 @@ func (w *world) apply(t Topo) {
 	}
 	switch t.Kind {
 	case "split":
-		if len(key) == 0 || bytes.Equal(r.StartKey, key) {
+		if len(key) == 0 || bytes.Equal(r.StartKey, w.enc(key)) {
 			return
 		}
 		newID := w.cluster.AllocID()
 		peers := w.cluster.AllocIDs(len(r.Peers))
-		w.cluster.SplitRaw(r.Id, newID, key, peers, peers[0])
+		w.cluster.SplitRaw(r.Id, newID, w.enc(key), peers, peers[0])
 	case "merge":
 		if len(r.EndKey) == 0 {
 			return
 		}
-		nx := w.regionOf(r.EndKey)
+		nx, _, _, _ := w.cluster.GetRegionByKey(r.EndKey)
 		if nx == nil || nx.Id == r.Id {
 			return
 		}
@@ -252,7 +315,24 @@ func (g *gate) SendRequest(ctx context.Context, addr string, req *tikvrpc.Reques
 		return nil, context.Canceled
 	}
 	if act, ok := g.inj[g.n]; ok {
-		g.w.apply(act)
+		if act.Kind == "fail" {
+			// the store answers with an application error: the request is NOT executed
+			var r interface{}
+			switch req.Type {
+			case tikvrpc.CmdRawBatchPut:
+				r = &kvrpcpb.RawBatchPutResponse{Error: "verif: injected failure"}
+			case tikvrpc.CmdRawBatchDelete:
+				r = &kvrpcpb.RawBatchDeleteResponse{Error: "verif: injected failure"}
+			case tikvrpc.CmdRawDeleteRange:
+				r = &kvrpcpb.RawDeleteRangeResponse{Error: "verif: injected failure"}
+			}
+			if r != nil {
+				g.lays = append(g.lays, "FAIL")
+				return &tikvrpc.Response{Resp: r}, nil
+			}
+		} else {
+			g.w.apply(act)
+		}
 	}
 	resp, err := g.inner.SendRequest(ctx, addr, req, timeout)
 	if err != nil || resp == nil {
@@ -267,11 +347,19 @@ func (g *gate) SendRequest(ctx context.Context, addr string, req *tikvrpc.Reques
 		return resp, err
 	}
 	g.lays = append(g.lays, g.w.layout())
+	if debug {
+		rg, _ := g.w.cluster.GetRegion(req.Context.RegionId)
+		fmt.Fprintf(os.Stderr, "rpc %d %s served region=%d ver=%d bounds=[%s,%s) layout=%s\n", g.n, req.Type, req.Context.RegionId,
+			req.Context.RegionEpoch.GetVersion(), hx(rg.GetStartKey()), hx(rg.GetEndKey()), g.w.layout())
+	}
 	switch req.Type {
 	case tikvrpc.CmdRawBatchGet:
-		g.bats = append(g.bats, hxs(req.RawBatchGet().Keys))
+		g.bats = append(g.bats, hxs(g.strips(req.RawBatchGet().Keys)))
 	case tikvrpc.CmdRawBatchDelete:
-		g.bats = append(g.bats, hxs(req.RawBatchDelete().Keys))
+		g.bats = append(g.bats, hxs(g.strips(req.RawBatchDelete().Keys)))
+	case tikvrpc.CmdRawDeleteRange:
+		r := req.RawDeleteRange()
+		g.bats = append(g.bats, hx(g.strip(r.StartKey))+":"+hx(g.stripEnd(r.EndKey)))
 	case tikvrpc.CmdRawBatchPut:
 		r := req.RawBatchPut()
 		var ks []string
@@ -280,12 +368,39 @@ func (g *gate) SendRequest(ctx context.Context, addr string, req *tikvrpc.Reques
 			if i < len(r.Ttls) {
 				t = r.Ttls[i]
 			}
-			ks = append(ks, hx(p.Key)+":"+hx(p.Value)+":"+strconv.FormatUint(t, 10))
+			ks = append(ks, hx(g.strip(p.Key))+":"+hx(p.Value)+":"+strconv.FormatUint(t, 10))
 		}
 		g.bats = append(g.bats, strings.Join(ks, ","))
 	}
 	return resp, err
 }
+
+// the gate sits below the codec: in API v2 mode request keys carry the keyspace prefix
+func (g *gate) strip(k []byte) []byte {
+	if g.w.pfx == nil {
+		return k
+	}
+	if !bytes.HasPrefix(k, g.w.pfx) {
+		return append([]byte("BROKEN-unprefixed-"), k...)
+	}
+	return k[len(g.w.pfx):]
+}
+func (g *gate) strips(ks [][]byte) [][]byte {
+	r := make([][]byte, len(ks))
+	for i, k := range ks {
+		r[i] = g.strip(k)
+	}
+	return r
+}
+
+// an unbounded end is sent as the end of the keyspace (prefix + 1)
+func (g *gate) stripEnd(k []byte) []byte {
+	if g.w.pfx != nil && !bytes.HasPrefix(k, g.w.pfx) {
+		return nil
+	}
+	return g.strip(k)
+}
+
 func (g *gate) SendRequestAsync(ctx context.Context, addr string, req *tikvrpc.Request, cb async.Callback[*tikvrpc.Response]) {
 	go func() { cb.Schedule(g.SendRequest(ctx, addr, req, 0)) }()
 }
@@ -294,6 +409,46 @@ func (g *gate) CloseAddr(addr string) error                   { return nil }
 func (g *gate) SetEventListener(l client.ClientEventListener) {}
 
 var _ client.Client = (*gate)(nil)
+
+// PD wrapper answering LoadKeyspace (the mock PD has no keyspaces), and what RPCClient.SendRequest
+// does around the wire when a codec is configured (both as in the C15 end-to-end driver)
+type ksPD struct {
+	pd.Client
+	meta *keyspacepb.KeyspaceMeta
+}
+
+func (p ksPD) GetGCStatesClient(keyspaceID uint32) pdgc.GCStatesClient {
+	return p.Client.GetGCStatesClient(constants.NullKeyspaceID)
+}
+func (p ksPD) GetGCInternalController(keyspaceID uint32) pdgc.InternalController {
+	return p.Client.GetGCInternalController(constants.NullKeyspaceID)
+}
+func (p ksPD) WithCallerComponent(c caller.Component) pd.Client {
+	return ksPD{p.Client.WithCallerComponent(c), p.meta}
+}
+func (p ksPD) LoadKeyspace(ctx context.Context, name string) (*keyspacepb.KeyspaceMeta, error) {
+	return p.meta, nil
+}
+
+type codecRPC struct {
+	client.Client
+	codec apicodec.Codec
+}
+
+func (c *codecRPC) SendRequest(ctx context.Context, addr string, req *tikvrpc.Request, timeout time.Duration) (*tikvrpc.Response, error) {
+	req, err := c.codec.EncodeRequest(req)
+	if err != nil {
+		return nil, err
+	}
+	resp, err := c.Client.SendRequest(ctx, addr, req, timeout)
+	if err != nil {
+		return nil, err
+	}
+	return c.codec.DecodeResponse(req, resp)
+}
+func (c *codecRPC) SendRequestAsync(ctx context.Context, addr string, req *tikvrpc.Request, cb async.Callback[*tikvrpc.Response]) {
+	go func() { cb.Schedule(c.SendRequest(ctx, addr, req, 0)) }()
+}
 
 // ---------------------------------------------------------------- execution
 
@@ -306,6 +461,10 @@ func errKind(err error) string {
 		return "err limit"
 	case strings.Contains(m, "atomic"):
 		return "err atomic"
+	case strings.Contains(m, "injected failure"):
+		return "err injected"
+	case strings.Contains(m, "unsupported this request type"):
+		return "err unsupported"
 	}
 	return "err other:" + strings.ReplaceAll(strings.ReplaceAll(m, "\t", " "), "\n", " ")
 }
@@ -321,12 +480,23 @@ func runSeq(sq Seq, out *bytes.Buffer) {
 	}
 	stores, _, _, _ := mocktikv.BootstrapWithMultiStores(cluster, n)
 	w := &world{cluster: cluster, stores: stores}
+	g := &gate{inner: mocktikv.NewRPCClient(cluster, mvcc, nil), w: w}
+	var cli *rawkv.Client
+	if sq.API == "v2" {
+		meta := &keyspacepb.KeyspaceMeta{Keyspace: &keyspacepb.KeyspaceMeta_Id{Id: sq.KsID}, Name: "ks", State: keyspacepb.KeyspaceState_ENABLED}
+		pdc, err := locate.NewCodecPDClientWithKeyspace(apicodec.ModeRaw, ksPD{mocktikv.NewPDClient(cluster), meta}, "ks")
+		if err != nil {
+			panic(err)
+		}
+		w.pfx = append([]byte{}, pdc.GetCodec().GetKeyspace()...)
+		cli = rawkv.NewClientForVerifAPI(kvrpcpb.APIVersion_V2, pdc, &codecRPC{g, pdc.GetCodec()})
+	} else {
+		cli = rawkv.NewClientForVerif(mocktikv.NewPDClient(cluster), g)
+	}
 	for _, s := range sq.Splits {
 		w.apply(Topo{Kind: "split", Key: s})
 	}
-	g := &gate{inner: mocktikv.NewRPCClient(cluster, mvcc, nil), w: w}
-	cli := rawkv.NewClientForVerif(mocktikv.NewPDClient(cluster), g)
-	cli.SetAtomicForCAS(true)
+	cli.SetAtomicForCAS(!sq.NonAt)
 	// handleKvRawChecksum reads column family "CF_DEFAULT" whatever the request says; column
 	// families are outside C11, so everything runs in that one family unless the spec names another
 	cf := sq.CF
@@ -347,6 +517,12 @@ func runSeq(sq Seq, out *bytes.Buffer) {
 	for idx, op := range sq.Ops {
 		for _, t := range op.Pre {
 			w.apply(t)
+		}
+		if op.Exact {
+			// a full key-only scan leaves the region cache with exactly the current regions, so the
+			// grouping of the next call is the grouping under the current layout
+			g.reset(nil)
+			_, _, _ = cli.Scan(ctx, nil, nil, 10000, rawkv.ScanKeyOnly())
 		}
 		g.reset(op.Inj)
 		opCtx, cancel := context.WithCancel(ctx)
@@ -376,10 +552,20 @@ func runSeq(sq Seq, out *bytes.Buffer) {
 		if g.exceeded {
 			res = "err does-not-terminate"
 		}
-		fmt.Fprintf(out, "OP\t%d\t%d\t%s\t%s\tL=%s\tB=%s\tN=%d,%d\t=>\t%s\n", sq.ID, idx, op.Name, args, lays, bats, g.n, g.rerrs, res)
+		exact := 0
+		if op.Exact && len(op.Inj) == 0 {
+			exact = 1
+		}
+		opcf := op.CF
+		if opcf == "" {
+			opcf = cf
+		}
+		fmt.Fprintf(out, "OP\t%d\t%d\t%s\t%s\tC=%s\tL=%s\tB=%s\tN=%d,%d,%d\t=>\t%s\n", sq.ID, idx, op.Name, args, opcf, lays, bats, g.n, g.rerrs, exact, res)
 		stop := g.exceeded
 		g.mu.Unlock()
-		if stop || strings.HasPrefix(res, "err") || strings.HasPrefix(res, "panic") {
+		tolerated := res == "err injected" || res == "err atomic"
+		// ("err unsupported" ends the sequence: the unanswerable GetKeyTTL leaves the store marked unreachable)
+		if stop || (strings.HasPrefix(res, "err") && !tolerated) || strings.HasPrefix(res, "panic") {
 			// no call of these sequences may fail: the oracle has failed on this call, and the
 			// client's state afterwards (stores marked unreachable, ...) is of no further interest
 			break
@@ -412,7 +598,7 @@ func argsOf(op Op) string {
 			ttl = op.TTLs[0]
 		}
 		return fmt.Sprintf("%s\t%s\t%d", hx(unhx(op.Keys[0])), hx(unhx(op.Vals[0])), ttl)
-	case "get", "del":
+	case "get", "del", "ttl":
 		return hx(unhx(op.Keys[0]))
 	case "bput":
 		ts := "."
@@ -451,40 +637,42 @@ func execOp(ctx context.Context, cli *rawkv.Client, op Op) (string, string) {
 		}
 		return "ok"
 	}
+	var o []rawkv.RawOption
+	if op.CF != "" {
+		o = append(o, rawkv.SetColumnFamily(op.CF))
+	}
 	switch op.Name {
 	case "put":
-		k, v := unhx(op.Keys[0]), unhx(op.Vals[0])
 		ttl := uint64(0)
 		if len(op.TTLs) > 0 {
 			ttl = op.TTLs[0]
 		}
-		return fmt.Sprintf("%s\t%s\t%d", hx(k), hx(v), ttl), okerr(cli.PutWithTTL(ctx, k, v, ttl))
+		return "", okerr(cli.PutWithTTL(ctx, unhx(op.Keys[0]), unhx(op.Vals[0]), ttl, o...))
 	case "get":
-		k := unhx(op.Keys[0])
-		v, err := cli.Get(ctx, k)
+		v, err := cli.Get(ctx, unhx(op.Keys[0]), o...)
 		if err != nil {
-			return hx(k), errKind(err)
+			return "", errKind(err)
 		}
-		return hx(k), "ok " + optv(v)
+		return "", "ok " + optv(v)
+	case "ttl":
+		t, err := cli.GetKeyTTL(ctx, unhx(op.Keys[0]), o...)
+		if err != nil {
+			// mocktikv has no CmdGetKeyTTL: its "unsupported this request type" is a send error, which
+			// the client retries until the back-off budget is spent ("region unavailable")
+			return "", "err unsupported"
+		}
+		if t == nil {
+			return "", "ok N"
+		}
+		return "", fmt.Sprintf("ok %d", *t)
 	case "del":
-		k := unhx(op.Keys[0])
-		return hx(k), okerr(cli.Delete(ctx, k))
+		return "", okerr(cli.Delete(ctx, unhx(op.Keys[0]), o...))
 	case "bput":
-		ks, vs := unhxs(op.Keys), unhxs(op.Vals)
-		ts := "."
-		if len(op.TTLs) > 0 {
-			p := make([]string, len(op.TTLs))
-			for i, t := range op.TTLs {
-				p[i] = strconv.FormatUint(t, 10)
-			}
-			ts = strings.Join(p, ",")
-		}
-		return hxs(ks) + "\t" + hxs(vs) + "\t" + ts, okerr(cli.BatchPutWithTTL(ctx, ks, vs, op.TTLs))
+		return "", okerr(cli.BatchPutWithTTL(ctx, unhxs(op.Keys), unhxs(op.Vals), op.TTLs, o...))
 	case "bget":
-		ks := unhxs(op.Keys)
-		vals, err := cli.BatchGet(ctx, ks)
+		vals, err := cli.BatchGet(ctx, unhxs(op.Keys), o...)
 		if err != nil {
-			return hxs(ks), errKind(err)
+			return "", errKind(err)
 		}
 		vs := make([]string, len(vals))
 		for i, v := range vals {
@@ -494,58 +682,45 @@ func execOp(ctx context.Context, cli *rawkv.Client, op Op) (string, string) {
 		if len(vs) == 0 {
 			r = "."
 		}
-		return hxs(ks), "ok " + r
+		return "", "ok " + r
 	case "bdel":
-		ks := unhxs(op.Keys)
-		return hxs(ks), okerr(cli.BatchDelete(ctx, ks))
+		return "", okerr(cli.BatchDelete(ctx, unhxs(op.Keys), o...))
 	case "drange":
-		s, e := unhx(op.S), unhx(op.E)
-		return hx(s) + "\t" + hx(e), okerr(cli.DeleteRange(ctx, s, e))
+		return "", okerr(cli.DeleteRange(ctx, unhx(op.S), unhx(op.E), o...))
 	case "scan", "rscan":
 		s, e := unhx(op.S), unhx(op.E)
-		var opts []rawkv.RawOption
-		ko := 0
 		if op.KeyOnly {
-			opts = append(opts, rawkv.ScanKeyOnly())
-			ko = 1
+			o = append(o, rawkv.ScanKeyOnly())
 		}
-		a := fmt.Sprintf("%s\t%s\t%d\t%d", hx(s), hx(e), op.Limit, ko)
 		if op.Name == "scan" {
-			k, v, err := cli.Scan(ctx, s, e, op.Limit, opts...)
-			return a, kvres(k, v, err)
+			k, v, err := cli.Scan(ctx, s, e, op.Limit, o...)
+			return "", kvres(k, v, err)
 		}
-		k, v, err := cli.ReverseScan(ctx, s, e, op.Limit, opts...)
-		return a, kvres(k, v, err)
+		k, v, err := cli.ReverseScan(ctx, s, e, op.Limit, o...)
+		return "", kvres(k, v, err)
 	case "cksum":
-		s, e := unhx(op.S), unhx(op.E)
-		c, err := cli.Checksum(ctx, s, e)
+		c, err := cli.Checksum(ctx, unhx(op.S), unhx(op.E), o...)
 		if err != nil {
-			return hx(s) + "\t" + hx(e), errKind(err)
+			return "", errKind(err)
 		}
-		return hx(s) + "\t" + hx(e), fmt.Sprintf("ok %x %d %d", c.Crc64Xor, c.TotalKvs, c.TotalBytes)
+		return "", fmt.Sprintf("ok %x %d %d", c.Crc64Xor, c.TotalKvs, c.TotalBytes)
 	case "cas":
-		k, nv := unhx(op.Keys[0]), unhx(op.Vals[0])
 		var prev []byte
-		ps := "N"
 		if op.Prev != nil {
 			prev = append([]byte{}, unhx(*op.Prev)...) // non-nil: nil means "expect absent"
-			ps = "V" + hex.EncodeToString(prev)
 		}
-		old, swapped, err := cli.CompareAndSwap(ctx, k, prev, nv)
-		a := hx(k) + "\t" + ps + "\t" + hx(nv)
+		old, swapped, err := cli.CompareAndSwap(ctx, unhx(op.Keys[0]), prev, unhx(op.Vals[0]), o...)
 		if err != nil {
-			return a, errKind(err)
+			return "", errKind(err)
 		}
 		sw := 0
 		if swapped {
 			sw = 1
 		}
-		return a, fmt.Sprintf("ok %s %d", optv(old), sw)
+		return "", fmt.Sprintf("ok %s %d", optv(old), sw)
 	}
 	return "", "err unknown-op"
 }
-
-// ---------------------------------------------------------------- generation
 
 var debug = os.Getenv("VERIF_DEBUG") != ""
 
@@ -572,8 +747,9 @@ func genKey(r *rand.Rand) []byte {
 }
 
 type genState struct {
-	r    *rand.Rand
-	pool [][]byte
+	r       *rand.Rand
+	pool    [][]byte
+	noSplit bool // only leader transfers (API v2 class: mocktikv's raw handlers assume API v1 region bounds)
 }
 
 func (g *genState) key() []byte {
@@ -603,6 +779,9 @@ func (g *genState) val() []byte {
 }
 func (g *genState) topo() Topo {
 	kinds := []string{"split", "split", "merge", "leader"}
+	if g.noSplit && os.Getenv("VERIF_V2_MULTI") == "" {
+		return Topo{Kind: "leader", Key: hx(g.key())}
+	}
 	return Topo{Kind: kinds[g.r.Intn(len(kinds))], Key: hx(g.key())}
 }
 func (g *genState) keys(max int) []string {
@@ -618,6 +797,40 @@ func (g *genState) keys(max int) []string {
 	return ks
 }
 
+// makeBig turns a batch call into one that crosses the sub-batch limits: > 512 keys in one region
+// (batch get / delete) or > 16 KB of pairs in one region (batch put)
+func (g *genState) makeBig(op *Op) {
+	r := g.r
+	wide := func() string { // 4 x 256 distinct keys, most of them under one first letter
+		first := alphabet[0]
+		if r.Intn(5) == 0 {
+			first = alphabet[r.Intn(len(alphabet))]
+		}
+		return hx([]byte{first, byte(0x61 + r.Intn(16)), byte(0x61 + r.Intn(16))})
+	}
+	switch op.Name {
+	case "bget", "bdel":
+		n := 600 + r.Intn(900)
+		op.Keys = make([]string, n)
+		for i := range op.Keys {
+			op.Keys[i] = wide()
+		}
+	case "bput":
+		n := 6 + r.Intn(10)
+		op.Keys, op.Vals, op.TTLs = make([]string, n), make([]string, n), nil
+		for i := range op.Keys {
+			if i > 0 && r.Intn(5) == 0 {
+				op.Keys[i] = op.Keys[r.Intn(i)]
+			} else if r.Intn(2) == 0 {
+				op.Keys[i] = wide()
+			} else {
+				op.Keys[i] = hx(g.key())
+			}
+			op.Vals[i] = fmt.Sprintf("*%dx%02x", 1500+r.Intn(7000), 0x30+r.Intn(10))
+		}
+	}
+}
+
 func genSeq(id int, r *rand.Rand, nops int) Seq {
 	g := &genState{r: r}
 	np := 4 + r.Intn(8)
@@ -625,7 +838,27 @@ func genSeq(id int, r *rand.Rand, nops int) Seq {
 		g.pool = append(g.pool, genKey(r))
 	}
 	sq := Seq{ID: id, Stores: 1 + r.Intn(3)}
+	// sequence classes: plain | column families | sub-batching | failing requests | API v2 | non-atomic
+	class := "plain"
+	switch c := r.Intn(100); {
+	case c < 8:
+		class = "cf"
+	case c < 14:
+		class = "big"
+	case c < 26:
+		class = "fail"
+	case c < 34:
+		class = "v2"
+		sq.API, sq.KsID = "v2", uint32(1+r.Intn(3))*0x0100ff
+		g.noSplit = true
+	case c < 38:
+		class = "nonatomic"
+		sq.NonAt = true
+	}
 	ns := r.Intn(5)
+	if g.noSplit && os.Getenv("VERIF_V2_MULTI") == "" {
+		ns = 0
+	}
 	for i := 0; i < ns; i++ {
 		sq.Splits = append(sq.Splits, hx(g.key()))
 	}
@@ -678,12 +911,20 @@ func genSeq(id int, r *rand.Rand, nops int) Seq {
 				op.Prev = &p
 			}
 		}
-		if r.Intn(3) == 0 {
+		if class == "cf" && r.Intn(3) == 0 {
+			op.CF = "cf2"
+		}
+		if class == "big" && r.Intn(4) == 0 {
+			g.makeBig(&op)
+			op.Exact = r.Intn(3) > 0
+		}
+		quiet := op.Exact
+		if !quiet && r.Intn(3) == 0 {
 			for j := r.Intn(3); j >= 0; j-- {
 				op.Pre = append(op.Pre, g.topo())
 			}
 		}
-		if r.Intn(2) == 0 {
+		if !quiet && r.Intn(2) == 0 {
 			for j := r.Intn(3); j >= 0; j-- {
 				t := g.topo()
 				// aim the change at the range/keys of the call
@@ -698,9 +939,18 @@ func genSeq(id int, r *rand.Rand, nops int) Seq {
 				op.Inj = append(op.Inj, Inject{At: 1 + r.Intn(4), Act: t})
 			}
 		}
+		failing := false
+		if class == "fail" && (op.Name == "bput" || op.Name == "bdel" || op.Name == "drange") && r.Intn(2) == 0 {
+			// the i-th request of this call fails for good; a full scan right after shows what was done
+			op.Inj = append(op.Inj, Inject{At: 1 + r.Intn(3), Act: Topo{Kind: "fail"}})
+			failing = true
+		}
 		sq.Ops = append(sq.Ops, op)
+		if failing || op.CF != "" && r.Intn(2) == 0 {
+			sq.Ops = append(sq.Ops, Op{Name: "scan", S: "-", E: "-", Limit: 5000, CF: op.CF})
+		}
 	}
-	sq.Ops = append(sq.Ops, Op{Name: "scan", S: "-", E: "-", Limit: 1000}) // final state
+	sq.Ops = append(sq.Ops, Op{Name: "scan", S: "-", E: "-", Limit: 5000}) // final state
 	return sq
 }
 
@@ -760,11 +1010,221 @@ func directedSeqs(base int) []Seq {
 		{Name: "bget", Keys: []string{c, a}}, // deleted key: tombstone in the store
 		{Name: "bput", Keys: []string{a, c}, Vals: []string{"-", "32"}}, {Name: "bget", Keys: []string{c, d, a}},
 	}})
+	// sub-batch borders: 513 keys fit one batch (the test is count > 512 before adding), 514 need two;
+	// two pairs of 8192 bytes fill a put batch exactly (size >= 16384 flushes before the third)
+	many := func(n int) []string {
+		ks := make([]string, n)
+		for i := range ks {
+			ks[i] = hx([]byte{0x62, byte(0x41 + i/64%32), byte(0x41 + i%64)})
+		}
+		return ks
+	}
+	big := func(n int) string { return fmt.Sprintf("*%dx37", n) }
+	seqs = append(seqs, Seq{Stores: 1, Splits: []string{a}, Ops: []Op{
+		{Name: "bput", Keys: many(700)[:40], Vals: many(700)[:40]},
+		{Name: "bget", Keys: many(513), Exact: true}, {Name: "bget", Keys: many(514), Exact: true},
+		{Name: "bget", Keys: append(many(1027), "62", "61", "6241", "6241"), Exact: true},
+		{Name: "bdel", Keys: many(514)[10:], Exact: true},
+		{Name: "bput", Keys: []string{"6201", "6202", "6203", "6201"}, Vals: []string{big(8190), big(8190), big(5), big(8190)}, Exact: true},
+		{Name: "bput", Keys: []string{"6201", "6202", "6203"}, Vals: []string{big(8189), big(8190), big(5)}, Exact: true},
+		{Name: "bput", Keys: []string{"6204", "6205", "6206", "6207", "61"}, Vals: []string{big(20000), big(1), big(16379), big(2), big(9)}, Exact: true,
+			TTLs: []uint64{1, 2, 3, 4, 5}},
+		{Name: "bget", Keys: []string{"6201", "6203", "6207"}},
+		{Name: "bput", Keys: []string{"6201", "6202", "6203", "61"}, Vals: []string{big(9000), big(9000), big(9000), "31"},
+			Inj: []Inject{{At: 2, Act: Topo{"split", "6202"}}}},
+	}})
+	// requests failing for good in the middle of a multi-region call
+	seqs = append(seqs, Seq{Stores: 2, Splits: []string{b, c, d}, Ops: []Op{
+		{Name: "bput", Keys: []string{a, b, c, d, e}, Vals: []string{"31", "32", "33", "34", "35"}},
+		{Name: "bput", Keys: []string{a, b, c, d, a}, Vals: []string{"41", "42", "43", "44", "45"}, Inj: []Inject{{At: 2, Act: Topo{Kind: "fail"}}}},
+		{Name: "scan", S: "-", E: "-", Limit: 100},
+		{Name: "bdel", Keys: []string{a, c, e}, Inj: []Inject{{At: 1, Act: Topo{Kind: "fail"}}}},
+		{Name: "scan", S: "-", E: "-", Limit: 100},
+		{Name: "drange", S: "6100", E: "6401", Inj: []Inject{{At: 2, Act: Topo{Kind: "fail"}}}},
+		{Name: "scan", S: "-", E: "-", Limit: 100},
+		{Name: "drange", S: "-", E: "-", Inj: []Inject{{At: 1, Act: Topo{Kind: "fail"}}}},
+		{Name: "scan", S: "-", E: "-", Limit: 100},
+		{Name: "drange", S: "-", E: "-", Inj: []Inject{{At: 1, Act: Topo{"split", "6300"}}, {At: 3, Act: Topo{Kind: "fail"}}}},
+		{Name: "scan", S: "-", E: "-", Limit: 100},
+		{Name: "bput", Keys: []string{a, b, c}, Vals: []string{"51", "52", "53"}, Inj: []Inject{{At: 1, Act: Topo{"merge", b}}, {At: 3, Act: Topo{Kind: "fail"}}}},
+		{Name: "scan", S: "-", E: "-", Limit: 100},
+	}})
+	// column families are separate maps; Checksum has no family (the mock reads CF_DEFAULT);
+	// the mock has no GetKeyTTL and keeps no ttl
+	seqs = append(seqs, Seq{Stores: 1, Splits: []string{b}, Ops: []Op{
+		{Name: "put", Keys: []string{a}, Vals: []string{"31"}, TTLs: []uint64{7}}, {Name: "put", Keys: []string{a}, Vals: []string{"32"}, CF: "cf2"},
+		{Name: "bput", Keys: []string{b, c}, Vals: []string{"33", "34"}, CF: "cf2"},
+		{Name: "get", Keys: []string{a}}, {Name: "get", Keys: []string{a}, CF: "cf2"}, {Name: "get", Keys: []string{b}},
+		{Name: "scan", S: "-", E: "-", Limit: 9, CF: "cf2"}, {Name: "scan", S: "-", E: "-", Limit: 9},
+		{Name: "cksum", S: "-", E: "-"}, {Name: "cksum", S: "-", E: "-", CF: "cf2"},
+		{Name: "drange", S: "-", E: "-", CF: "cf2"}, {Name: "scan", S: "-", E: "-", Limit: 9, CF: "cf2"}, {Name: "scan", S: "-", E: "-", Limit: 9},
+		{Name: "cas", Keys: []string{a}, Vals: []string{"35"}, Prev: sp("31"), CF: "cf3"}, {Name: "cas", Keys: []string{a}, Vals: []string{"35"}, CF: "cf3"},
+		{Name: "ttl", Keys: []string{a}},
+	}})
+	// without SetAtomicForCAS(true) CompareAndSwap fails; everything else is unchanged
+	seqs = append(seqs, Seq{Stores: 1, Splits: []string{b}, NonAt: true, Ops: []Op{
+		{Name: "put", Keys: []string{a}, Vals: []string{"31"}}, {Name: "cas", Keys: []string{a}, Vals: []string{"32"}, Prev: sp("31")},
+		{Name: "get", Keys: []string{a}}, {Name: "bput", Keys: []string{b, c}, Vals: []string{"33", "34"}}, {Name: "del", Keys: []string{b}},
+		{Name: "bdel", Keys: []string{c}}, {Name: "cas", Keys: []string{c}, Vals: []string{"32"}},
+	}})
+	// API v2 (keyspace codec) on one region: fully transparent, checksum counts the prefix
+	seqs = append(seqs, Seq{Stores: 3, API: "v2", KsID: 0x0001ff, Ops: []Op{
+		{Name: "bput", Keys: []string{a, b, b0, c}, Vals: []string{"31", "32", "-", "33"}},
+		{Name: "scan", S: "-", E: "-", Limit: 3}, {Name: "rscan", S: d, E: "-", Limit: 9}, {Name: "rscan", S: "-", E: "-", Limit: 9},
+		{Name: "cksum", S: "-", E: "-", Pre: []Topo{{"leader", a}}}, {Name: "cksum", S: b, E: c},
+		{Name: "drange", S: b0, E: "-", Inj: []Inject{{At: 1, Act: Topo{"leader", a}}}},
+		{Name: "cas", Keys: []string{a}, Vals: []string{"35"}, Prev: sp("31")}, {Name: "bget", Keys: []string{c, a, e}},
+		{Name: "drange", S: "-", E: "-"},
+	}})
 	for i := range seqs {
 		seqs[i].ID = base + i
-		seqs[i].Ops = append(seqs[i].Ops, Op{Name: "scan", S: "-", E: "-", Limit: 1000})
+		seqs[i].Ops = append(seqs[i].Ops, Op{Name: "scan", S: "-", E: "-", Limit: 5000})
 	}
 	return seqs
+}
+
+// ---------------------------------------------------------------- concurrent callers
+// Supporting test for C11_cas_interleaving: several goroutines share ONE client and issue
+// CAS / get / put / delete on one or two keys while another goroutine splits, merges and moves
+// leaders. Every call is logged with logical invoke / return stamps (H lines); the check searches a
+// linearization (some interleaving of atomic steps that respects the real-time order).
+func runConc(id int, r *rand.Rand, out *bytes.Buffer) {
+	mvcc := mocktikv.MustNewMVCCStore()
+	cluster := mocktikv.NewCluster(mvcc)
+	stores, _, _, _ := mocktikv.BootstrapWithMultiStores(cluster, 1+r.Intn(3))
+	w := &world{cluster: cluster, stores: stores}
+	// no gate here: the gate's mutex would serialise the RPCs and hide races inside the store
+	cli := rawkv.NewClientForVerif(mocktikv.NewPDClient(cluster), mocktikv.NewRPCClient(cluster, mvcc, nil))
+	cli.SetAtomicForCAS(true)
+	defer func() {
+		cli.Close()
+		mvcc.Close()
+	}()
+	ctx := context.Background()
+	keys := [][]byte{[]byte("b"), []byte("bb")}
+	for _, s := range []string{"61", "6261", "63"}[:r.Intn(4)] {
+		w.apply(Topo{Kind: "split", Key: s})
+	}
+	if r.Intn(2) == 0 {
+		_ = cli.Put(ctx, keys[0], []byte("i"))
+	}
+	var clock int64
+	var mu sync.Mutex
+	tick := func() int64 { mu.Lock(); defer mu.Unlock(); clock++; return clock }
+	// initial values (read before the workers start)
+	for _, k := range keys {
+		v, _ := cli.Get(ctx, k)
+		fmt.Fprintf(out, "H\t%d\tinit\t%s\t%s\n", id, hx(k), optv(v))
+	}
+	nw := 2 + r.Intn(3)
+	type plan struct {
+		kind       string
+		k, prev, v []byte
+		absent     bool
+	}
+	plans := make([][]plan, nw)
+	vals := [][]byte{[]byte("i")}
+	for wi := range plans {
+		for j := 0; j < 2+r.Intn(3); j++ {
+			nv := []byte(fmt.Sprintf("w%d%d", wi, j))
+			p := plan{k: keys[r.Intn(len(keys))], v: nv}
+			switch r.Intn(8) {
+			case 0:
+				p.kind = "get"
+			case 1:
+				p.kind = "put"
+				vals = append(vals, nv)
+			case 2:
+				p.kind = "del"
+			default:
+				p.kind = "cas"
+				if r.Intn(3) == 0 {
+					p.absent = true
+				} else {
+					p.prev = vals[r.Intn(len(vals))]
+				}
+				vals = append(vals, nv)
+			}
+			plans[wi] = append(plans[wi], p)
+		}
+	}
+	var wg sync.WaitGroup
+	lines := make([][]string, nw)
+	done := make(chan struct{})
+	topos := make([]Topo, 6)
+	for i := range topos {
+		kinds := []string{"split", "merge", "leader"}
+		ks := []string{"62", "6262", "6261", "63", "61"}
+		topos[i] = Topo{Kind: kinds[r.Intn(3)], Key: ks[r.Intn(len(ks))]}
+	}
+	go func() {
+		for _, t := range topos {
+			select {
+			case <-done:
+				return
+			default:
+			}
+			w.apply(t)
+			runtime.Gosched()
+		}
+	}()
+	for wi := range plans {
+		wg.Add(1)
+		go func(wi int) {
+			defer wg.Done()
+			for _, p := range plans[wi] {
+				inv := tick()
+				var res string
+				switch p.kind {
+				case "get":
+					v, err := cli.Get(ctx, p.k)
+					if err != nil {
+						res = errKind(err)
+					} else {
+						res = "ok " + optv(v)
+					}
+				case "put":
+					if err := cli.Put(ctx, p.k, p.v); err != nil {
+						res = errKind(err)
+					} else {
+						res = "ok"
+					}
+				case "del":
+					if err := cli.Delete(ctx, p.k); err != nil {
+						res = errKind(err)
+					} else {
+						res = "ok"
+					}
+				case "cas":
+					var prev []byte
+					if !p.absent {
+						prev = p.prev
+					}
+					old, sw, err := cli.CompareAndSwap(ctx, p.k, prev, p.v)
+					if err != nil {
+						res = errKind(err)
+					} else {
+						res = fmt.Sprintf("ok %s %v", optv(old), sw)
+					}
+				}
+				ret := tick()
+				pv := "N"
+				if !p.absent && p.kind == "cas" {
+					pv = "V" + hex.EncodeToString(p.prev)
+				}
+				lines[wi] = append(lines[wi], fmt.Sprintf("H\t%d\top\t%d\t%d\t%d\t%s\t%s\t%s\t%s\t=>\t%s\n", id, wi, inv, ret, p.kind, hx(p.k), pv, hx(p.v), res))
+				runtime.Gosched()
+			}
+		}(wi)
+	}
+	wg.Wait()
+	close(done)
+	for _, l := range lines {
+		for _, x := range l {
+			out.WriteString(x)
+		}
+	}
+	fmt.Fprintf(out, "H\t%d\tend\n", id)
 }
 
 // ---------------------------------------------------------------- main
@@ -851,4 +1311,14 @@ func main() {
 	}
 	seqs = append(seqs, directedSeqs(nseq)...)
 	runAll(seqs)
+	// concurrent CAS callers (supporting test; not replayable: the schedule is the Go scheduler's)
+	nconc := 150
+	if os.Getenv("VERIF_TIER") == "thorough" {
+		nconc = 600
+	}
+	var cb bytes.Buffer
+	for i := 0; i < nconc; i++ {
+		runConc(i, r, &cb)
+	}
+	os.Stdout.Write(cb.Bytes())
 }
